@@ -320,4 +320,42 @@ example :
   have I3 := confirm_inv _ 3 2 [(3, true), (1, false)] I2 (by decide) (by decide)
   exact ⟨truncate_inv _ 2 I3 (by decide), by decide, truncate_inv _ 0 I3 (by decide), by decide⟩
 
+/-- **the tip is the first-confirmed highest block**: after ANY list of `confirm` operations from genesis (no
+hypothesis on them; refused ones write nothing), with `log` = ids of the confirmed blocks in confirmation order
+(`runOps`): `log` lists exactly the stored blocks, once each; no stored block is higher than the trunk; the tip has
+the trunk height; and every other block of that (maximal) height was confirmed after the tip. This is the
+history-level consequence of `confirm_tip_rule` (the tip moves only to a strictly higher block). -/
+theorem tip_is_first_highest (g : Nat) (gtxs : List Nat) (ops : List (Nat × Nat × List (Nat × Bool))) :
+    let s := runOps (genesis g gtxs, [g]) ops
+    (∀ b, b ∈ s.2 ↔ (lookup s.1.B b).isSome = true) ∧ s.2.Nodup ∧
+    (∀ b hb, lookup s.1.B b = some hb → hb.height ≤ s.1.trunkHeight) ∧
+    (∃ th, lookup s.1.B s.1.tip = some th ∧ th.height = s.1.trunkHeight) ∧
+    (∀ b hb, lookup s.1.B b = some hb → hb.height = s.1.trunkHeight → b ≠ s.1.tip →
+      ∃ l1 l2 l3, s.2 = l1 ++ s.1.tip :: l2 ++ b :: l3) := by
+  intro s
+  have H : HInv s.1 s.2 := runOps_hinv (genesis g gtxs, [g]) ops (genesis_hinv g gtxs)
+  refine ⟨?_, H.nodup, ?_, ?_, ?_⟩
+  · intro b
+    rw [H.dom b]
+    simp [hmap]
+  · intro b hb sb
+    exact H.le b hb.height (by simp [hmap, sb])
+  · have := H.tipH
+    unfold hmap at this
+    cases ht : lookup s.1.B s.1.tip with
+    | none => simp [ht] at this
+    | some th => exact ⟨th, rfl, by simpa [ht] using this⟩
+  · intro b hb sb hh hne
+    exact H.first b (by simp [hmap, sb, hh]) hne
+
+-- non-vacuity: blocks 1 and 2 compete at height 1 (1 confirmed first stays tip), a duplicate of 2 is refused,
+-- then 3 on top of 2 switches; the log is the confirmation order
+example :
+    let s := runOps (genesis 0 [], [0]) [(1, 0, []), (2, 0, []), (2, 0, []), (9, 8, [])]
+    s.1.tip = 1 ∧ s.2 = [0, 1, 2] ∧ (lookup s.1.B 2).map (·.height) = some s.1.trunkHeight := by decide
+
+example :
+    let s := runOps (genesis 0 [], [0]) [(1, 0, []), (2, 0, []), (3, 2, []), (4, 1, [])]
+    s.1.tip = 3 ∧ s.2 = [0, 1, 2, 3, 4] ∧ (lookup s.1.B 4).map (·.height) = some s.1.trunkHeight := by decide
+
 end XV.C04
